@@ -603,6 +603,41 @@ def _post_wf_replace(kind):
     return post
 
 
+def _same_factory(f1, f2):
+    """the two innermost gates are built by the same matrix factory (own comparison of custom definitions)"""
+    if f1 is f2:
+        return True
+    if isinstance(f1, _G.CustomGateMatrixFactory) and isinstance(f2, _G.CustomGateMatrixFactory):
+        d1, d2 = f1.gate_definition, f2.gate_definition
+        return d1 is d2 or (d1.gate_name == d2.gate_name and tuple(d1.params_ordering) == tuple(d2.params_ordering)
+                            and sympy.ImmutableMatrix(d1.matrix) == sympy.ImmutableMatrix(d2.matrix))
+    return False
+
+
+def gate_identity_mismatch(g, r):
+    """None when r is the gate g up to the values of its parameters, else text.  Compared: arity, total number of
+    control qubits, the innermost gate (name and matrix factory) and the parity of daggers - the latter only when
+    the innermost gate does not declare itself hermitian (X.dagger is X, so the library may drop such a dagger)."""
+    mods, b = _chain(g)
+    if not isinstance(b, _G.MatrixFactoryGate):
+        return None  # a gate kind of somebody else's making: not judged
+    try:
+        rmods, rb = _chain(r)
+    except Exception:
+        return f"{r!r} is not a gate"
+    if not isinstance(rb, _G.MatrixFactoryGate) or not hasattr(r, "num_qubits"):
+        return f"{r!r} is not a gate"
+    if r.num_qubits != g.num_qubits:
+        return f"acts on {r.num_qubits} qubits instead of {g.num_qubits}"
+    if sum(k[1] for k in rmods if k[0] == "C") != sum(k[1] for k in mods if k[0] == "C"):
+        return "number of control qubits changed"
+    if rb.name != b.name or not _same_factory(rb.matrix_factory, b.matrix_factory) or rb.num_qubits != b.num_qubits:
+        return f"innermost gate {describe_gate(b)} became {describe_gate(rb)}"
+    if not b.is_hermitian and sum(k[0] == "D" for k in mods) % 2 != sum(k[0] == "D" for k in rmods) % 2:
+        return "dagger lost or gained"
+    return None
+
+
 def _post_circuit_bind(mon, call):
     name = "Circuit.bind"
     c, m = call.args[0], _get(call, 1, "symbols_map")
@@ -633,7 +668,16 @@ def _post_circuit_bind(mon, call):
         mon.violation("circuit-bind-operations", f"{what} -> {describe_circuit(r)}")
     else:
         rng = _rng_for(what)
-        for a, b in zip(c.operations, r.operations):
+        for i, (a, b) in enumerate(zip(c.operations, r.operations)):
+            if isinstance(a, _G.GateOperation):
+                # every operation keeps ITS OWN gate (wrappers, innermost gate, arity); only parameter values change
+                why = gate_identity_mismatch(a.gate, b.gate)
+                if why is None and a.gate.num_qubits == len(a.qubit_indices) != b.gate.num_qubits:
+                    why = f"a {b.gate.num_qubits}-qubit gate on qubits {tuple(b.qubit_indices)}"
+                if why:
+                    mon.violation("circuit-bind-gate-identity", f"{what}: operation {i} {describe_op(a)} -> "
+                                  f"{describe_op(b)}: {why}")
+                    return
             why = _judge_params(_expected_params(_op_params(a), m), tuple(_op_params(b)), rng)
             if why:
                 chained = any(_atoms(v) & set(m) for v in m.values() if isinstance(v, sympy.Basic))
